@@ -224,6 +224,7 @@ func constIntOf(p *packages.Package, e ast.Expr) (int, string, bool) {
 
 func checkC16(R *Run) {
 	P := R.P
+	defer R.ruleLoadIndependent()
 	R.rule("access-bits", "AccessBitmap.Set and IsSet each consist of one `bits[IDX] op MASK` expression on the receiver; folding IDX and MASK for i = 0..63 gives IDX = i/8 and MASK = 0x80 >> (i%8) in both; Set ORs into and stores back the same element, IsSet ANDs and compares with 0")
 	R.rule("access-tables", "closed-world parse of UnmarshalYAML's named-flag case (only `if v[KEY] is true { bits.Set(CONST) }` statements), of MarshalYAML (one literal `FIELD: bits.IsSet(CONST)` per accessFlags field) and of the accessFlags yaml tags: load table = save table, both bijections between keys and privilege numbers, equal to spec/access.json (protocol numbering), covering every Access* constant")
 	R.rule("legacy-array", "the numeric-array case of UnmarshalYAML copies element i of the list into byte i of the bitmap, unmodified")
@@ -1383,4 +1384,57 @@ func parseFlagMapLoop(p *packages.Package, st ast.Stmt, recv string, mapVar type
 		rows = append(rows, [3]any{constant.StringVal(ktv.Value), n, cname})
 	}
 	return rows, len(rows) > 0
+}
+
+// ruleLoadIndependent (C16, shared with C15): every account file is decoded into a fresh account. The named-flag form
+// of UnmarshalYAML only sets bits, so a decoder target that survives from one file to the next hands the earlier
+// account's privileges to the later one.
+func (R *Run) ruleLoadIndependent() {
+	P := R.P
+	R.rule("load-independent", "in NewYAMLAccountManager, nothing that one iteration of the loop over the account files decodes or computes is still in a variable that the next iteration decodes into or reads (other than the manager that is being filled): each file is loaded into a fresh account")
+	fn := R.mustFn("mobius.NewYAMLAccountManager")
+	if fn == nil {
+		return
+	}
+	R.analysed(fname(fn))
+	var header *ssa.BasicBlock
+	eachInstr(fn, func(ins ssa.Instruction) {
+		if header != nil {
+			return
+		}
+		ia, ok := ins.(*ssa.IndexAddr)
+		if !ok {
+			return
+		}
+		from := false
+		P.reaches(ia.X, func(x ssa.Value) bool {
+			if c := callValue(x); c != nil && calleeName(&c.Call) == "path/filepath.Glob" {
+				from = true
+				return true
+			}
+			return false
+		})
+		if !from {
+			return
+		}
+		if _, _, ok := indexRange(ia.Index); ok {
+			header = ia.Index.(ssa.Instruction).Block()
+		}
+	})
+	if header == nil {
+		R.und("load-independent", fname(fn), P.pos(fn.Pos()), "the loop over the account files (filepath.Glob result) was not recognised")
+		return
+	}
+	returned := map[*ssa.Alloc]bool{}
+	for _, ret := range returnsOf(fn) {
+		for _, v := range ret.Results {
+			if a, ok := stripConv(v).(*ssa.Alloc); ok {
+				returned[a] = true
+			}
+		}
+	}
+	carried := P.carriedCells(fn, header, func(a *ssa.Alloc) bool { return returned[a] })
+	R.check(len(carried) == 0, "load-independent", fname(fn)+": loop over the account files", P.pos(fn.Pos()), "every file is decoded into a fresh account",
+		"state survives from one account file to the next: "+strings.Join(carried, "; ")+" — the named-flag decoder only sets bits, so the later account inherits the earlier one's privileges")
+	R.floor("load-independent", 1)
 }
